@@ -1090,6 +1090,12 @@ func (s *stSess) doLoad(w []string, line string, emit func(string, string), fail
 		return
 	}
 	emit(line, fmt.Sprintf("ok next=%d", next))
+	// C34: the commit watermark may only report timestamps that were handed out: a doneUntil at
+	// the NEXT timestamp lets readers start at that timestamp while the commit that gets it is
+	// still being applied (its Begin cannot lower doneUntil)
+	if st := badger.VerifOracleOf(mv.db).State(); !mv.managed && st.TxnDoneUntil >= st.NextTxnTs {
+		fail("C34-txnmark-ahead-of-next", fmt.Sprintf("after Load txnMark.DoneUntil=%d although timestamp %d has not been handed out yet: the commit that gets it will be considered applied before it is written", st.TxnDoneUntil, st.NextTxnTs))
+	}
 	emit("dump", mv.dump())
 	s.st.Inc("load:kvs=" + sizeBucket(len(b.kvs)))
 	// the loaded versions enter the destination's history (for later Stream / Backup oracles)
